@@ -41,6 +41,12 @@ type Violation struct {
 	MinSize    int             `json:"min_size"`
 	ShrinkExec int             `json:"shrink_executions"`
 	ReplayPath string          `json:"replay_path,omitempty"`
+	// Where the run sat in the batch: lets replay re-run the shard's run sequence
+	// when a violation depends on package-level state carried from case to case.
+	Tier         string `json:"tier,omitempty"`
+	Shard        int    `json:"shard"`
+	Shards       int    `json:"shards"`
+	NeedsHistory bool   `json:"needs_history,omitempty"` // the case alone did not reproduce right after detection
 }
 
 // Ctx is the per-process (shard) context. One simulation at a time per process.
@@ -186,6 +192,7 @@ func (c *Ctx) Report(v *Violation) {
 	v.Run = c.run
 	v.VerifSeed = c.Seed
 	v.RunSeed = c.runSeed
+	v.Tier, v.Shard, v.Shards = c.Tier, c.Shard, c.Shards
 	c.EvS("VIOLATION " + v.Clause + " " + v.Key)
 	if c.ReplayDir != "" {
 		os.MkdirAll(c.ReplayDir, 0o755)
